@@ -235,7 +235,7 @@ Qed.
 Lemma S7_process_pdu now p s : S7 s -> S7 (fst (s_process_pdu now p s)).
 Proof.
   intros H. unfold Send.s_process_pdu.
-  set (s0 := if sphase_eqb (s_phase s) SendEof && negb (ssuspended s) then supd_inact (c_restart now) s else s).
+  set (s0 := if sphase_eqb (s_phase s) SendEof && negb (ssuspended s) then supd_inact (c_reset now) s else s).
   assert (H0 : S7 s0) by (unfold s0; destruct (_ && _); [s7_leaf|]; exact H). clearbody s0. clear H.
   destruct (cfg_mode (s_cfg s0)); destruct p; cbn [fst]; try exact H0.
   - (* Finished, acknowledged: the phase becomes SFinished *)
@@ -281,7 +281,7 @@ Proof.
 Qed.
 
 (* entering SendEof: the EOF is prepared *)
-Lemma S7_to_eof fl (s : sstate) : S7 s -> S7 (set_s_phase SendEof (prepare_eof fl s)).
+Lemma S7_to_eof now fl (s : sstate) : S7 s -> S7 (enter_send_eof now (prepare_eof fl s)).
 Proof.
   intros H. destruct (prepare_eof_fields fl s) as (A & B & C & D & E & F & G).
   eapply (S7_phase s); [exact H | exact A | exact B | exact C | | exact D
@@ -505,7 +505,7 @@ Qed.
 Lemma HS_process_pdu base now p s : HS base s -> HS base (fst (s_process_pdu now p s)).
 Proof.
   intros H. unfold Send.s_process_pdu.
-  set (s0 := if sphase_eqb (s_phase s) SendEof && negb (ssuspended s) then supd_inact (c_restart now) s else s).
+  set (s0 := if sphase_eqb (s_phase s) SendEof && negb (ssuspended s) then supd_inact (c_reset now) s else s).
   assert (H0 : HS base s0) by (unfold s0; destruct (_ && _); [hs_leaf base|]; exact H). clearbody s0. clear H.
   destruct (cfg_mode (s_cfg s0)); destruct p; cbn [fst]; try exact H0.
   - hs_leaf base. exact H0.
@@ -684,7 +684,7 @@ Qed.
 Lemma SU_process_pdu now p s : SU s -> SU (fst (s_process_pdu now p s)).
 Proof.
   intros H. unfold Send.s_process_pdu.
-  set (s0 := if sphase_eqb (s_phase s) SendEof && negb (ssuspended s) then supd_inact (c_restart now) s else s).
+  set (s0 := if sphase_eqb (s_phase s) SendEof && negb (ssuspended s) then supd_inact (c_reset now) s else s).
   assert (H0 : SU s0) by (unfold s0; destruct (_ && _); [su_leaf|]; exact H). clearbody s0. clear H.
   destruct H0 as (A & B). rewrite A. assert (H0 : SU s0) by (split; assumption).
   destruct p; cbn [fst]; try exact H0.
@@ -762,7 +762,7 @@ Proof.
   - unfold Send.send_metadata. destruct (_ && _); cbn [fst].
     + cbn. constructor; [exact I|exact Ho].
     + destruct (prepare_eof_fields None (semit_pdu (PMetadata (s_meta s)) s)) as (_ & _ & _ & _ & _ & F & _).
-      cbn [s_out set_s_phase]. rewrite F. cbn. constructor; [exact I|exact Ho].
+      unfold enter_send_eof; cbn [s_out set_s_phase supd_inact set_s_timer]. rewrite F. cbn. constructor; [exact I|exact Ho].
   - assert (H1 : Forall oneway_pdu (s_out (fst (if negb (is_nil (s_naks s)) then send_missing_data now s
                                else (send_file_segment (s_pos s) (cfg_seg (s_cfg s)) s, ROk))))).
     { destruct (negb _).
@@ -773,7 +773,7 @@ Proof.
     destruct (if negb (is_nil (s_naks s)) then _ else _) as [s1 r]. cbn [fst] in H1.
     destruct r; cbn [fst]; try exact H1.
     destruct (_ =? _); cbn [fst]; [|exact H1].
-    destruct (prepare_eof_fields None s1) as (_ & _ & _ & _ & _ & F & _). cbn [s_out set_s_phase]. rewrite F. exact H1.
+    destruct (prepare_eof_fields None s1) as (_ & _ & _ & _ & _ & F & _). unfold enter_send_eof; cbn [s_out set_s_phase supd_inact set_s_timer]. rewrite F. exact H1.
   - destruct (negb _).
     + unfold Send.send_missing_data. destruct (s_naks s) as [|[a b] t]; [exact Ho|].
       destruct (65535 <? b - a); cbn [fst]; [exact Ho|].
@@ -827,7 +827,7 @@ Theorem sender_finished_unacked now s f : cfg_mode (s_cfg s) = Unacked -> md_clo
   exists r, In (OInd (IFinished r (fin_fs f) (fin_dc f) (fin_resps f))) (s_out s') /\ trp_cond r = fin_cond f.
 Proof.
   intros Hm Hc. cbn zeta. unfold Send.s_process_pdu.
-  set (s0 := if sphase_eqb (s_phase s) SendEof && negb (ssuspended s) then supd_inact (c_restart now) s else s).
+  set (s0 := if sphase_eqb (s_phase s) SendEof && negb (ssuspended s) then supd_inact (c_reset now) s else s).
   assert (E1 : cfg_mode (s_cfg s0) = Unacked) by (unfold s0; destruct (_ && _); exact Hm).
   assert (E2 : md_closure (s_meta s0) = true) by (unfold s0; destruct (_ && _); exact Hc).
   rewrite E1, E2. cbn. split; [reflexivity|]. eexists. split; [left; reflexivity|reflexivity].
